@@ -211,7 +211,12 @@ func TestC16(t *testing.T) {
 				if sortName != "" {
 					t.Skip("exists")
 				}
-				nsort++
+				// a fresh name, or (half of the time) the name of the index that was dropped last
+				if nsort == 0 || rapid.Bool().Draw(t, "fresh-name") {
+					nsort++
+				} else {
+					mc.flag("sort-index-name-reused")
+				}
 				sortName = fmt.Sprintf("sorted%d", nsort)
 				mc.logf("createSortIndex %s on s (rows=%d)", sortName, len(mc.M.Rows))
 				if err := mc.C.CreateSortIndex(sortName, "s"); err != nil {
@@ -227,15 +232,24 @@ func TestC16(t *testing.T) {
 				if sortName == "" {
 					t.Skip("none")
 				}
-				mc.logf("dropIndex %s", sortName)
-				if err := mc.C.DropIndex(sortName); err != nil {
-					mc.fail(t, "DropIndex(%s): %v", sortName, err)
+				if rapid.IntRange(0, 2).Draw(t, "drop-with-DropColumn") == 0 {
+					// DropColumn "removes the column (or an index) with the specified name"
+					mc.logf("dropColumn %s (the sort index)", sortName)
+					mc.C.DropColumn(sortName)
+					mc.flag("sort-index-dropped-with-DropColumn")
+				} else {
+					mc.logf("dropIndex %s", sortName)
+					if err := mc.C.DropIndex(sortName); err != nil {
+						mc.fail(t, "DropIndex(%s): %v", sortName, err)
+					}
 				}
 				sortName = ""
 			},
 		})
 		if sortName == "" {
-			nsort++
+			if nsort == 0 {
+				nsort = 1
+			}
 			sortName = fmt.Sprintf("sorted%d", nsort)
 			mc.logf("createSortIndex %s on s (rows=%d) [final]", sortName, len(mc.M.Rows))
 			if err := mc.C.CreateSortIndex(sortName, "s"); err != nil {
